@@ -13,7 +13,7 @@ import (
 
 func c09N(tier string) int {
 	if tier == "thorough" {
-		return 400000
+		return 2000000
 	}
 	return 20000
 }
